@@ -224,6 +224,8 @@ inductive Op
   | chPass (priv : Bool) (old new : Nat)
   /-- `Wallet.ChangePassphrases(publicOld, publicNew, privateOld, privateNew)` -/
   | chBoth (pubOld pubNew privOld privNew : Nat)
+  /-- the process restarts: the running wallet is stopped and opened again on its database (`reopen`) -/
+  | restart
 
 /-- a transaction whose only write is ONE `nextAddresses(.., 1, ..)`: rolled back when that fails or when the
 request is a dry run / fails afterwards (`abort`), committed otherwise -/
@@ -465,6 +467,7 @@ def step (s : State) : Op → State × Res
   | .unlockPass p => stepUnlockPass s p
   | .chPass priv old new => stepChPass s priv old new
   | .chBoth pubOld pubNew privOld privNew => stepChBoth s pubOld pubNew privOld privNew
+  | .restart => (reopen s, .ok)
 
 def run (s : State) (ops : List Op) : State := ops.foldl (fun s op => (step s op).1) s
 
